@@ -897,14 +897,15 @@ def check_aws(pid, tier, seed):
 def pump_cfg(adapter, driver, defects, export=False):
     lines = ["SPECIFICATION Spec", "CONSTANTS", '  Adapter = "%s"' % adapter, '  Driver = "%s"' % driver, "  Defects = {%s}" % ", ".join('"%s"' % d for d in defects),
              "  MaxBatches = 2", "  MaxBatch = 3", "  MaxIn = 5", "  BufSize = 3", "  MaxOps = 3",
-             "INVARIANT WriteFaithful", "INVARIANT ReadFaithful", "INVARIANT AtMostOneResult", "INVARIANT AllResolvedAfterExit"]
+             "INVARIANT WriteFaithful", "INVARIANT ReadFaithful", "INVARIANT ReadComplete", "INVARIANT AtMostOneResult", "INVARIANT AllResolvedAfterExit"]
     if export: lines.append("INVARIANT ExportReads")
     lines.append("CHECK_DEADLOCK FALSE")
     return "\n".join(lines) + "\n"
 
 # defects of the pinned tree that BytePump.tla can switch back on, with the invariant each one breaks
 PUMP_DEFECTS = [("ws", "threaded", "ws-cursor-from-start", "ReadFaithful"), ("ws", "threaded", "ws-read-overwrites", "ReadFaithful"),
-                ("ws", "threaded", "ws-blocked-after-queue", "WriteFaithful"), ("plain", "threaded", "slot-never-resolved", "AllResolvedAfterExit")]
+                ("ws", "threaded", "ws-blocked-after-queue", "WriteFaithful"), ("plain", "threaded", "slot-never-resolved", "AllResolvedAfterExit"),
+                ("ws", "threaded", "ws-error-drops-read-bytes", "ReadComplete")]
 
 TOKIO_PUMP_REGRESSIONS = [
  {"cfg": {"src": "S3:pump-tokio-happy", "auto_broker": True, "ka": 0}, "steps": [{"a": "Start"}, {"a": "Run", "ms": 50}, {"a": "Publish", "qos": 0, "size": 10}, {"a": "Publish", "qos": 1, "size": 300}, {"a": "Publish", "qos": 2, "size": 20}, {"a": "Subscribe"}, {"a": "Inbound", "n": 3, "size": 40}, {"a": "Settle", "ms": 2000}]},
@@ -921,6 +922,7 @@ THREADED_PUMP_REGRESSIONS = [
  {"cfg": {"src": "S3:f11a-ws-message-larger-than-read-buffer", "adapter": "ws"}, "steps": [{"a": "Start"}, {"a": "WaitConnected"}, {"a": "Inbound", "n": 1, "size": 6000}, {"a": "Settle", "ms": 2000}]},
  {"cfg": {"src": "S3:f11b-ws-several-messages-per-read", "adapter": "ws"}, "steps": [{"a": "Start"}, {"a": "WaitConnected"}, {"a": "Inbound", "n": 3, "size": 10, "per_message": 1}, {"a": "Settle", "ms": 2000}]},
  {"cfg": {"src": "S3:f16-ws-blocked-write", "adapter": "ws", "ws_stall_ms": 1500}, "steps": [{"a": "Start"}, {"a": "WaitConnected"}, {"a": "Sleep", "ms": 50}] + [{"a": "Publish", "qos": 0, "size": 400000} for _ in range(30)] + [{"a": "Settle", "ms": 15000}]},
+ {"cfg": {"src": "S3:ws-burst-then-close", "adapter": "ws"}, "steps": [{"a": "Start"}, {"a": "WaitConnected"}, {"a": "Inbound", "n": 3, "size": 20, "per_message": 1}, {"a": "PeerClose"}, {"a": "Settle", "ms": 2500}]},
  {"cfg": {"src": "S3:ws-large-outbound", "adapter": "ws"}, "steps": [{"a": "Start"}, {"a": "WaitConnected"}, {"a": "Publish", "qos": 1, "size": 200000}, {"a": "Publish", "qos": 1, "size": 200000}, {"a": "Publish", "qos": 0, "size": 10}, {"a": "Settle", "ms": 4000}]},
 ]
 
@@ -1018,6 +1020,9 @@ def check_pump(pid, tier, seed):
     # S1: every fragmentation of the peer's stream into WebSocket messages that TLC enumerated (1 unit = 1400 bytes, read buffer 3 units ~ 4096 bytes)
     s1 = [{"cfg": {"src": "S1:pump-ws-reads:%s" % "-".join(map(str, sizes)), "adapter": "ws"},
            "steps": [{"a": "Start"}, {"a": "WaitConnected"}, {"a": "Inbound", "n": 5, "size": 1390, "cuts": [k * 1400 for k in sizes]}, {"a": "Settle", "ms": 2500}]} for sizes in reads]
+    # ... and the same fragmentations with the peer's Close frame right behind the last message: nothing sent before a close may be lost
+    s1 += [{"cfg": {"src": "S1:pump-ws-reads-close:%s" % "-".join(map(str, sizes)), "adapter": "ws"},
+            "steps": [{"a": "Start"}, {"a": "WaitConnected"}, {"a": "Inbound", "n": 5, "size": 1390, "cuts": [k * 1400 for k in sizes]}, {"a": "PeerClose"}, {"a": "Settle", "ms": 2500}]} for sizes in reads]
     tk, th = random_pump_scripts(seed, 1500 if big else 200, 400 if big else 60, 120 if big else 20)
     t_trace, t_sp, t_stats = run_scripts("client_run", TOKIO_PUMP_REGRESSIONS + tk, workdir, "pump-tokio")
     h_trace, h_sp, h_stats = run_scripts("thread_run", THREADED_PUMP_REGRESSIONS + s1 + th, workdir, "pump-threaded")
